@@ -365,6 +365,9 @@ type World struct {
 	constructed  bool
 	ConstructErr string
 	IDPModel     *IDPModel
+
+	sharedBase    string // structural hash of the replicas' providers right after construction / restart
+	SharedChanged string // first step after which the hash differed
 }
 
 func (w *World) fire(kind string) {
@@ -578,8 +581,20 @@ func (w *World) run() {
 		}
 	}
 	w.constructed = true
+	track := w.plan.Property == "C15"
+	if track {
+		w.sharedBase = w.snapshotShared()
+	}
 	for i := range w.plan.Steps {
 		w.step(&w.plan.Steps[i])
+		if track && w.SharedChanged == "" && len(w.inflight()) == 0 {
+			if w.plan.Steps[i].K == "restart" {
+				w.sharedBase = w.snapshotShared()
+			} else if now := w.snapshotShared(); now != w.sharedBase {
+				w.SharedChanged = fmt.Sprintf("after step %d (%s)", i, w.plan.Steps[i].K)
+				w.hist.add("shared-state-changed", -1, w.SharedChanged)
+			}
+		}
 	}
 	w.drain()
 	w.finalizeDone()
